@@ -31,6 +31,15 @@ CLAIMS = {
         ),
         design_ref="DESIGN.md §4 C12",
     ),
+    "C02": dict(
+        technique="static analysis: whole-program ownership scan of timeline write sites (append-only, who-may-write) + provenance (def-use) rules on slot construction",
+        text=(
+            "Decides the structural necessary conditions of 'slots tile the time axis and never move': the slot list is append-only program-wide and written only by the scheduler/Sequence, _TimeSlot is immutable, "
+            "every new slot starts at the tf of the current last slot (provenance, not its ti, no arithmetic), ends at start + a channel-validated duration, the automatic delay equals slot.ti - last.tf and precedes the pulse, "
+            "all inserted delays pass adjust_duration = validate_duration(max(d, min_duration)), durations aggregate with max. Non-negativity and exact multiples as numbers are not decided."
+        ),
+        design_ref="DESIGN.md §4 C02",
+    ),
     "C04": dict(
         technique="static analysis: multi-way table agreement (abstract interpretation of serializer branches, deserializer branch keys/defaults, JSON-schema definitions, method signatures, operator tables), all extracted from source on every run",
         text=(
